@@ -6,8 +6,10 @@
       change_bucket_gen_ok, add_bucket_gen_ok                      (index loops = the model's maps)
       compute_delta_costs_gen_ok                                   (over the FLATTENED cost matrix = the model over the table)
       improve_one_ranking_gen_ok                                   (the whole loop nest = the model's improve_one_ranking)
+      bio_consert_gen_ok                                           (the jitted driver over the FLATTENED departures: slice in, initial score,
+                                                                    local search, slice out = the model's map of bio_one)
     Re-checked on every run of C08 / C09 / C04 against what the code says now. *)
-From Corankco Require Import Prelude Scheme Rank KemenySpec CostTable OptTheory Markov MarkovProof Borda BioConsert Imp BioDelta Judge.JBio BioMoves BioArrays BioLoop.
+From Corankco Require Import Prelude Scheme Rank KemenySpec CostTable OptTheory Markov MarkovProof Borda BioConsert Imp BioDelta Judge.JBio BioMoves BioArrays BioLoop BioAlgo.
 From CorankcoGen Require Import Gen_biokernel.
 Local Open Scope Z_scope.
 
@@ -398,3 +400,257 @@ Proof.
   repeat split; try assumption; lia.
 Qed.
 Print Assumptions improve_one_ranking_gen_local_opt.
+
+(* ------------------------------------------------------------------ *)
+Lemma map_seq_shift a m : map (fun k => Z.of_nat a + Z.of_nat k) (seq 0 m) = map Z.of_nat (seq a m).
+Proof.
+  revert a; induction m as [|m IH]; intros a; [reflexivity|]. cbn [seq map]. f_equal; [lia|].
+  rewrite <- (seq_shift m 0), map_map, <- (IH (S a)). apply map_ext. intros; lia.
+Qed.
+Lemma zrange_nat2 a b : zrange (Z.of_nat a) (Z.of_nat b) = map Z.of_nat (seq a (b - a)).
+Proof.
+  unfold zrange. assert (E : Z.to_nat (Z.of_nat b - Z.of_nat a) = (b - a)%nat).
+  { destruct (le_lt_dec a b) as [L|L]; [rewrite <- Nat2Z.inj_sub by exact L; apply Nat2Z.id|].
+    replace (b - a)%nat with 0%nat by lia. apply Z2Nat.inj_neg || (destruct (Z.of_nat b - Z.of_nat a) eqn:Q; try reflexivity; lia). }
+  rewrite E. apply map_seq_shift.
+Qed.
+
+Lemma fold_add {A} (f : A -> Z) l acc : fold_left (fun s x => s + f x) l acc = acc + zsum (map f l).
+Proof.
+  revert acc; induction l as [|x l IH]; intros acc; cbn [fold_left map]; [cbn; lia|].
+  rewrite IH. change (zsum (f x :: map f l)) with (f x + zsum (map f l)). lia.
+Qed.
+
+Lemma list_eq_aget (a b : list Z) : length a = length b -> (forall i, (i < length a)%nat -> aget a (Z.of_nat i) = aget b (Z.of_nat i)) -> a = b.
+Proof.
+  intros L H. apply (nth_ext a b 0 0 L). intros i Hi. specialize (H i Hi). unfold aget in H. rewrite Nat2Z.id in H. exact H.
+Qed.
+
+(** the initial score: the double loop over the flattened matrix is the model's [score_vec] on the table [flat_table M n] *)
+Section Init.
+  Variables (M : list Z) (n : nat) (r : list Z).
+  Hypothesis Lr : length r = n.
+  Let K := flat_table M n.
+  Definition pickxy (xy : nat * nat) : Z :=
+    let '(b, a, t) := K (fst xy) (snd xy) in
+    if get r (fst xy) <? get r (snd xy) then b else if get r (snd xy) <? get r (fst xy) then a else t.
+
+  Variable inner : Z -> Z -> Z -> Z.      (* the body of the inner loop: acc, id_elem1, id_elem2 *)
+  Hypothesis Hinner : forall acc x y, (x < n)%nat -> (y < n)%nat -> inner acc (Z.of_nat x) (Z.of_nat y) = acc + pickxy (x, y).
+
+  Lemma inner_loop x a m acc : (x < n)%nat -> (a + m <= n)%nat ->
+    fold_left (fun s y => inner s (Z.of_nat x) y) (map Z.of_nat (seq a m)) acc = acc + zsum (map (fun y => pickxy (x, y)) (seq a m)).
+  Proof.
+    intros Hx. revert a acc; induction m as [|m IH]; intros a acc Ha; cbn [seq map fold_left]; [cbn; lia|].
+    rewrite Hinner by lia. rewrite IH by lia.
+    change (zsum (pickxy (x, a) :: map (fun y => pickxy (x, y)) (seq (S a) m))) with (pickxy (x, a) + zsum (map (fun y => pickxy (x, y)) (seq (S a) m))). lia.
+  Qed.
+
+  Lemma outer_loop : forall m a acc, (a + m = n)%nat ->
+    fold_left (fun s x => fold_left (fun s' y => inner s' x y) (zrange (x + 1) (Z.of_nat n)) s) (zrange (Z.of_nat a) (Z.of_nat n - 1)) acc
+    = acc + zsum (map pickxy (ordpairs (seq a m))).
+  Proof.
+    induction m as [|m IH]; intros a acc Ha.
+    - rewrite zrange_empty by lia. cbn. lia.
+    - destruct m as [|m'].
+      + rewrite zrange_empty by lia. cbn. lia.
+      + rewrite zrange_cons by lia. cbn [fold_left]. replace (Z.of_nat a + 1) with (Z.of_nat (S a)) by lia.
+        rewrite zrange_nat2. rewrite (inner_loop a (S a) (n - S a)) by lia.
+        rewrite (IH (S a)) by lia. replace (n - S a)%nat with (S m') by lia.
+        rewrite <- (cons_seq (S m') a). cbn [ordpairs]. rewrite map_app, zsum_app, map_map. cbn [fst snd]. lia.
+  Qed.
+
+  Lemma init_score_loop :
+    fold_left (fun s x => fold_left (fun s' y => inner s' x y) (zrange (x + 1) (Z.of_nat n)) s) (zrange 0 (Z.of_nat n - 1)) 0
+    = score_vec K n r.
+  Proof.
+    change 0 with (Z.of_nat 0) at 1. rewrite (outer_loop n 0%nat 0 eq_refl). unfold score_vec. rewrite Z.add_0_l.
+    apply zsum_map_ext. intros [x y] _. reflexivity.
+  Qed.
+End Init.
+
+(* ------------------------------------------------------------------ *)
+Lemma zrange_snoc k : zrange 0 (Z.of_nat (S k)) = zrange 0 (Z.of_nat k) ++ [Z.of_nat k].
+Proof. rewrite !zrange_nat. rewrite seq_S, map_app. reflexivity. Qed.
+
+Lemma aget_aset_same a i v : (i < length a)%nat -> aget (aset a (Z.of_nat i) v) (Z.of_nat i) = v.
+Proof. intros H. unfold aget, aset. rewrite !Nat2Z.id, nth_upd, Nat.eqb_refl. destruct (Nat.ltb_spec i (length a)); [reflexivity|lia]. Qed.
+Lemma aget_aset_other a i j v : i <> j -> aget (aset a (Z.of_nat i) v) (Z.of_nat j) = aget a (Z.of_nat j).
+Proof. intros H. unfold aget, aset. rewrite !Nat2Z.id, nth_upd. destruct (Nat.eqb_spec j i); [lia|reflexivity]. Qed.
+Lemma aset_len a i v : length (aset a i v) = length a.
+Proof. unfold aset. apply upd_length. Qed.
+
+(** copy-in: [r[j] = src[off + j]] for j < k *)
+Lemma copy_in_loop (src : list Z) (off : nat) : forall k (r : list Z), (k <= length r)%nat ->
+  let '(r', c2) := fold_left (fun st j => let '(r0, c) := st in (aset r0 j (aget src c), c + 1)) (zrange 0 (Z.of_nat k)) (r, Z.of_nat off) in
+  c2 = Z.of_nat (off + k) /\ length r' = length r /\
+  forall j, aget r' (Z.of_nat j) = if (j <? k)%nat then aget src (Z.of_nat (off + j)) else aget r (Z.of_nat j).
+Proof.
+  induction k as [|k IH]; intros r Hk.
+  - rewrite zrange_empty by lia. cbn [fold_left]. split; [f_equal; lia|]. split; [reflexivity|]. intros j. reflexivity.
+  - rewrite zrange_snoc, fold_left_app. specialize (IH r ltac:(lia)).
+    destruct (fold_left _ (zrange 0 (Z.of_nat k)) (r, Z.of_nat off)) as [r1 c1]. destruct IH as (-> & L1 & P1). cbn [fold_left].
+    split; [lia|]. split; [rewrite aset_len; exact L1|]. intros j.
+    destruct (Nat.eq_dec j k) as [->|Ne].
+    + rewrite aget_aset_same by lia. destruct (Nat.ltb_spec k (S k)); [reflexivity|lia].
+    + rewrite aget_aset_other by lia. rewrite P1. destruct (Nat.ltb_spec j k); destruct (Nat.ltb_spec j (S k)); try lia; reflexivity.
+Qed.
+
+(** copy-out: [dst[off + j] = r[j]] for j < k *)
+Lemma copy_out_loop (r : list Z) (off : nat) : forall k (dst : list Z), (off + k <= length dst)%nat ->
+  let '(d', c2) := fold_left (fun st j => let '(d0, c) := st in (aset d0 c (aget r j), c + 1)) (zrange 0 (Z.of_nat k)) (dst, Z.of_nat off) in
+  c2 = Z.of_nat (off + k) /\ length d' = length dst /\
+  forall i, aget d' (Z.of_nat i) = if ((off <=? i) && (i <? off + k))%nat then aget r (Z.of_nat (i - off)) else aget dst (Z.of_nat i).
+Proof.
+  induction k as [|k IH]; intros dst Hk.
+  - rewrite zrange_empty by lia. cbn [fold_left]. split; [f_equal; lia|]. split; [reflexivity|]. intros i.
+    destruct (Nat.leb_spec off i); destruct (Nat.ltb_spec i (off + 0)); cbn [andb]; try reflexivity; lia.
+  - rewrite zrange_snoc, fold_left_app. specialize (IH dst ltac:(lia)).
+    destruct (fold_left _ (zrange 0 (Z.of_nat k)) (dst, Z.of_nat off)) as [d1 c1]. destruct IH as (-> & L1 & P1). cbn [fold_left].
+    split; [lia|]. split; [rewrite aset_len; exact L1|]. intros i.
+    destruct (Nat.eq_dec i (off + k)) as [->|Ne].
+    + rewrite aget_aset_same by lia. replace (off + k - off)%nat with k by lia.
+      destruct (Nat.leb_spec off (off + k)); destruct (Nat.ltb_spec (off + k) (off + S k)); cbn [andb]; try reflexivity; lia.
+    + rewrite aget_aset_other by lia. rewrite P1.
+      destruct (Nat.leb_spec off i); destruct (Nat.ltb_spec i (off + k)); destruct (Nat.ltb_spec i (off + S k)); cbn [andb]; try reflexivity; lia.
+Qed.
+
+(** cells of a concatenation of rows of the same length *)
+Lemma aget_concat (rows : list (list Z)) n : Forall (fun r => length r = n) rows -> forall i j, (i < length rows)%nat -> (j < n)%nat ->
+  aget (concat rows) (Z.of_nat (i * n + j)) = aget (nth i rows []) (Z.of_nat j).
+Proof.
+  intros H. induction H as [|r rows Hr Hrows IH]; intros i j Hi Hj; [cbn in Hi; lia|].
+  unfold aget in *. rewrite !Nat2Z.id in *. cbn [concat]. destruct i as [|i].
+  - cbn [nth Nat.mul Nat.add]. rewrite app_nth1 by lia. reflexivity.
+  - cbn [nth]. rewrite app_nth2 by (rewrite Hr; lia). rewrite Hr. replace (S i * n + j - n)%nat with (i * n + j)%nat by lia.
+    specialize (IH i j ltac:(cbn in Hi; lia) Hj). rewrite !Nat2Z.id in IH. exact IH.
+Qed.
+Lemma length_concat_rows (rows : list (list Z)) n : Forall (fun r => length r = n) rows -> length (concat rows) = (length rows * n)%nat.
+Proof. induction 1 as [|r rows Hr _ IH]; [reflexivity|]. cbn [concat length]. rewrite app_length, IH, Hr. lia. Qed.
+
+(* ------------------------------------------------------------------ *)
+Lemma aget_app_l (a b : list Z) j : (j < length a)%nat -> aget (a ++ b) (Z.of_nat j) = aget a (Z.of_nat j).
+Proof. intros H. unfold aget. rewrite Nat2Z.id. apply app_nth1. exact H. Qed.
+Lemma aget_app_r (a b : list Z) j : (length a <= j)%nat -> aget (a ++ b) (Z.of_nat j) = aget b (Z.of_nat (j - length a)).
+Proof. intros H. unfold aget. rewrite !Nat2Z.id. apply app_nth2. exact H. Qed.
+
+(** reading the slice [d] of [P ++ d ++ Q] into [r], writing [r1] over it *)
+Lemma slice_in (P d Q r : list Z) : length r = length d ->
+  fold_left (fun st j => let '(r0, c) := st in (aset r0 j (aget (P ++ d ++ Q) c), c + 1)) (zrange 0 (Z.of_nat (length d))) (r, Z.of_nat (length P))
+  = (d, Z.of_nat (length P + length d)).
+Proof.
+  intros L. pose proof (copy_in_loop (P ++ d ++ Q) (length P) (length d) r ltac:(lia)) as H.
+  destruct (fold_left _ _ _) as [r' c2]. destruct H as (-> & L' & Pt). f_equal.
+  apply list_eq_aget; [lia|]. intros j Hj. rewrite Pt. destruct (Nat.ltb_spec j (length d)); [|lia].
+  rewrite aget_app_r by lia. replace (length P + j - length P)%nat with j by lia. apply aget_app_l. lia.
+Qed.
+
+Lemma slice_out (P d Q r1 : list Z) : length r1 = length d ->
+  fold_left (fun st j => let '(d0, c) := st in (aset d0 c (aget r1 j), c + 1)) (zrange 0 (Z.of_nat (length d))) (P ++ d ++ Q, Z.of_nat (length P))
+  = (P ++ r1 ++ Q, Z.of_nat (length P + length d)).
+Proof.
+  intros L. pose proof (copy_out_loop r1 (length P) (length d) (P ++ d ++ Q) ltac:(rewrite !app_length; lia)) as H.
+  destruct (fold_left _ _ _) as [d' c2]. destruct H as (-> & L' & Pt). f_equal.
+  apply list_eq_aget; [rewrite L', !app_length; lia|]. intros i Hi. rewrite Pt.
+  destruct (Nat.leb_spec (length P) i) as [Ge|Lt]; cbn [andb].
+  - destruct (Nat.ltb_spec i (length P + length d)) as [In|Out].
+    + rewrite aget_app_r by lia. rewrite aget_app_l by lia. reflexivity.
+    + rewrite !aget_app_r by (try rewrite app_length; lia). f_equal. f_equal. lia.
+  - rewrite !aget_app_l by lia. reflexivity.
+Qed.
+
+Lemma aset_app_mid (A : list Z) x B v : aset (A ++ x :: B) (Z.of_nat (length A)) v = A ++ v :: B.
+Proof. unfold aset. rewrite Nat2Z.id. apply upd_app_mid. Qed.
+
+(* ------------------------------------------------------------------ *)
+Section Driver.
+  Variables (M : list Z) (n : nat) (f F : nat).
+  Notation K := (flat_table M n).
+  Hypothesis MK : mirror K.
+  Hypothesis Hn : (0 < n)%nat.
+  Hypothesis HfF : (f < F)%nat.
+  Hypothesis HnF : (n + 3 < F)%nat.
+  Notation St := (list Z * list Z * list Z * Z)%type.
+  Variable stepf : St -> Z -> option St.
+  (** one departure: what the generated body of the outer loop does *)
+  Hypothesis Hstep : forall (r0 D1 : list Z) x (D2 P d Q : list Z) r1 s1,
+    length r0 = n -> length d = n -> DenseTo n d (vmax d) -> bio_one f K n d = Some (r1, s1) ->
+    stepf (r0, D1 ++ x :: D2, P ++ d ++ Q, Z.of_nat (length P)) (Z.of_nat (length D1)) =
+    Some (r1, D1 ++ s1 :: D2, P ++ r1 ++ Q, Z.of_nat (length P + n)).
+
+  Lemma driver_loop : forall rem resrem (P D1 Drem r0 : list Z),
+    map (bio_one f K n) rem = map Some resrem -> Forall (fun d => length d = n /\ DenseTo n d (vmax d)) rem ->
+    length r0 = n -> length Drem = length rem ->
+    exists r_last, fold_opt stepf (zrange (Z.of_nat (length D1)) (Z.of_nat (length D1 + length rem))) (r0, D1 ++ Drem, P ++ concat rem, Z.of_nat (length P))
+      = Some (r_last, D1 ++ map snd resrem, P ++ concat (map fst resrem), Z.of_nat (length P + length rem * n)).
+  Proof.
+    induction rem as [|d rem IH]; intros resrem P D1 Drem r0 E HF Lr LD.
+    - destruct resrem; [|discriminate]. destruct Drem; [|discriminate]. rewrite zrange_empty by (cbn [length]; lia).
+      exists r0. cbn [fold_opt map concat length Nat.mul]. rewrite Nat.add_0_r. reflexivity.
+    - destruct resrem as [|[r1 s1] resrem]; [discriminate|]. cbn [map] in E. injection E as E1 E.
+      destruct Drem as [|x Drem]; [discriminate|]. cbn [length] in LD.
+      pose proof (Forall_inv HF) as [Ld Hd]. pose proof (Forall_inv_tail HF) as HF'.
+      rewrite zrange_cons by (cbn [length]; lia). cbn [fold_opt concat].
+      rewrite (Hstep r0 D1 x Drem P d (concat rem) r1 s1 Lr Ld Hd E1).
+      assert (L1 : length r1 = length d).
+      { destruct (bio_one_spec K n f d (vmax d) r1 s1 MK Hn Hd E1) as (_ & _ & (m' & (L' & _)) & _). lia. }
+      replace (D1 ++ s1 :: Drem) with ((D1 ++ [s1]) ++ Drem) by (rewrite <- app_assoc; reflexivity).
+      replace (P ++ r1 ++ concat rem) with ((P ++ r1) ++ concat rem) by (rewrite <- app_assoc; reflexivity).
+      replace (Z.of_nat (length D1) + 1) with (Z.of_nat (length (D1 ++ [s1]))) by (rewrite app_length; cbn; lia).
+      replace (length D1 + length (d :: rem))%nat with (length (D1 ++ [s1]) + length rem)%nat by (rewrite app_length; cbn; lia).
+      replace (length P + n)%nat with (length (P ++ r1)) by (rewrite app_length; lia).
+      destruct (IH resrem (P ++ r1) (D1 ++ [s1]) Drem r1 E HF' ltac:(lia) ltac:(lia)) as (r_last & W).
+      exists r_last. eapply eq_trans; [exact W|]. cbn [map concat fst snd length]. rewrite <- !app_assoc. cbn [app].
+      rewrite app_length. do 3 f_equal. lia.
+  Qed.
+End Driver.
+
+(* ------------------------------------------------------------------ *)
+Lemma slice_in_n n (P d Q r : list Z) : length d = n -> length r = n ->
+  fold_left (fun st j => let '(r0, c) := st in (aset r0 j (aget (P ++ d ++ Q) c), c + 1)) (zrange 0 (Z.of_nat n)) (r, Z.of_nat (length P))
+  = (d, Z.of_nat (length P + n)).
+Proof. intros <- L. apply slice_in. exact L. Qed.
+Lemma slice_out_n n (P d Q r1 : list Z) : length d = n -> length r1 = n ->
+  fold_left (fun st j => let '(d0, c) := st in (aset d0 c (aget r1 j), c + 1)) (zrange 0 (Z.of_nat n)) (P ++ d ++ Q, Z.of_nat (length P))
+  = (P ++ r1 ++ Q, Z.of_nat (length P + n)).
+Proof. intros <- L. apply slice_out. exact L. Qed.
+
+Theorem bio_consert_gen_ok M n f F (deps : list (list Z)) res dst0 :
+  mirror (flat_table M n) -> (0 < n)%nat -> (f < F)%nat -> (n + 3 < F)%nat ->
+  Forall (fun d => length d = n /\ DenseTo n d (vmax d)) deps -> length dst0 = length deps ->
+  all_some_list (map (bio_one f (flat_table M n) n) deps) = Some res ->
+  bio_consert_gen F (concat deps) M (Z.of_nat n) (Z.of_nat (length deps)) dst0 = Some (concat (map fst res), map snd res).
+Proof.
+  intros MK Hn HfF HnF HD Ld0 E. apply all_some_list_spec in E. unfold bio_consert_gen. cbv zeta.
+  match goal with |- match fold_opt ?sf _ _ with Some p => _ | None => None end = _ => pose (stepf := sf) end.
+  assert (Hstep : forall (r0 D1 : list Z) x (D2 P d Q : list Z) r1 s1,
+    length r0 = n -> length d = n -> DenseTo n d (vmax d) -> bio_one f (flat_table M n) n d = Some (r1, s1) ->
+    stepf (r0, D1 ++ x :: D2, P ++ d ++ Q, Z.of_nat (length P)) (Z.of_nat (length D1)) =
+    Some (r1, D1 ++ s1 :: D2, P ++ r1 ++ Q, Z.of_nat (length P + n))).
+  { intros r0 D1 x D2 P d Q r1 s1 Lr Ld Hd E1. unfold stepf. cbv beta zeta match.
+    (* copy the slice into r *)
+    rewrite (slice_in_n n P d Q r0 Ld Lr).
+    (* the initial score *)
+    erewrite (init_score_loop M n d Ld).
+    2:{ intros acc x0 y0 Hx Hy. cbv beta. unfold pickxy, flat_table. cbn [fst snd]. rewrite !(aget_get d) by lia.
+        replace (Z.of_nat x0 * Z.of_nat n * 3 + Z.of_nat y0 * 3) with (3 * Z.of_nat n * Z.of_nat x0 + 3 * Z.of_nat y0) by lia.
+        destruct (get d x0 <? get d y0); [reflexivity|]. destruct (get d y0 <? get d x0); reflexivity. }
+    (* the local search *)
+    unfold bio_one in E1. destruct (improve_one_ranking f (flat_table M n) n d) as [[r' dd]|] eqn:EI; [|discriminate].
+    injection E1 as <- <-.
+    rewrite (improve_one_ranking_gen_ok f F M n d (r', dd) MK Hd EI HfF HnF). cbn [fst snd].
+    rewrite aset_app_mid.
+    assert (L1 : length r' = length d).
+    { assert (B : bio_one f (flat_table M n) n d = Some (r', score_vec (flat_table M n) n d + dd)) by (unfold bio_one; rewrite EI; reflexivity).
+      destruct (bio_one_spec (flat_table M n) n f d (vmax d) r' _ MK Hn Hd B) as (_ & _ & (m' & (L' & _)) & _). lia. }
+    rewrite (slice_out_n n P d Q r' Ld ltac:(lia)).
+    replace (Z.of_nat (length P) + Z.of_nat n) with (Z.of_nat (length P + n)) by lia. reflexivity. }
+  destruct (driver_loop M n f F MK Hn HfF HnF stepf Hstep deps res [] [] dst0 (zeros (Z.of_nat n)) E HD
+              ltac:(unfold zeros; rewrite repeat_length; lia) Ld0) as (r_last & W).
+  cbn [app length Nat.add] in W.
+  match goal with |- match ?X with Some p => _ | None => None end = _ =>
+    replace X with (Some (r_last, map snd res, concat (map fst res), Z.of_nat (0 + length deps * n))) by (symmetry; exact W) end.
+  reflexivity.
+Qed.
+Print Assumptions bio_consert_gen_ok.
+
